@@ -166,6 +166,19 @@ func holderModels(tp *onnx.TensorProto) holderMap {
 	return out
 }
 
+// cosModel: ConstantOfShape whose value attribute is the stored tensor; the target shape [2,2] is an initializer.
+func cosModel(tp *onnx.TensorProto) []byte {
+	g := &onnx.GraphProto{Name: "g"}
+	t := proto.Clone(tp).(*onnx.TensorProto)
+	t.Name = ""
+	g.Initializer = []*onnx.TensorProto{{Name: "shape", DataType: int32(val.Int64), Dims: []int64{2}, Int64Data: []int64{2, 2}}}
+	g.Node = []*onnx.NodeProto{{OpType: "ConstantOfShape", Input: []string{"shape"}, Output: []string{"filled"}, Attribute: []*onnx.AttributeProto{{Name: "value", Type: onnx.AttributeProto_TENSOR, T: t}}}}
+	g.Output = []*onnx.ValueInfoProto{{Name: "filled"}}
+	mp := &onnx.ModelProto{IrVersion: 7, Graph: g, OpsetImport: []*onnx.OperatorSetIdProto{{Version: 13}}}
+	b, _ := proto.MarshalOptions{Deterministic: true}.Marshal(mp)
+	return b
+}
+
 func (g *gen) families12() {
 	thorough := g.thorough()
 	readersFor := func(k int) []string {
@@ -225,6 +238,19 @@ func (g *gen) families12() {
 								weightOnly = append(weightOnly, base{label, data})
 							}
 						})
+						if val.NElems(shape) == 1 && variant <= 1 {
+							// the same stored tensor as the fill value of ConstantOfShape
+							g.rawCase("tensor-fault-free", label+"/constant_of_shape", cosModel(tp0), "bytes", true, "")
+							for _, tf := range tensorFaults(tp0) {
+								tp := proto.Clone(tp0).(*onnx.TensorProto)
+								tf.mut(tp)
+								if !g.mine() || g.stop {
+									continue
+								}
+								g.run(&Case{Family: "tensor-fault", Base: label + "/constant_of_shape", Reader: "bytes", ZipFail: -1, Data: cosModel(tp), Note: tf.name,
+									Faults: []medium.Fault{{Kind: "tensor:" + faultClass(tf.name)}}}, true)
+							}
+						}
 						if variant > 1 {
 							continue
 						}
